@@ -1546,6 +1546,28 @@ func c02scenarios() []*scenario {
 	// majority, the minority.
 	add("n6-byz-leader1-R2-forge", 6, []int64{0}, map[int64]int64{1: 1, 2: 1, 3: 1, 4: 2, 5: 2}, v12, 2, opt{parts: [][][]int{{{0}, {1, 2}, {3, 4}}}})
 	add("n5-byz-leader1-R2-forge", 5, []int64{0}, map[int64]int64{1: 1, 2: 1, 3: 2, 4: 2}, v12, 2, opt{parts: [][][]int{{{0}, {1}, {2, 3}}}})
+	{
+		// Staged, n=6 (quorum 4, 2f+1 = 3): the Byzantine leader of round 1 (member 0) equivocated - A to members 1-3, B to members
+		// 4-5; A was prepared by 1-3, member 2 alone saw the COMMIT quorum (with the Byzantine vote) and decided A; the others
+		// timed out into round 2, whose leader (member 1) is honest. Only THREE PREPAREs for B exist (4, 5 and the Byzantine
+		// member's): a prepared claim for B is one short of a certificate. Every member behaves on its own: four groups.
+		A, B := int64(1), int64(2)
+		ppA, ppB := msel{MsgPrePrepare, 0, 1, A}, msel{MsgPrePrepare, 0, 1, B}
+		preA := func(src int64) msel { return msel{MsgPrepare, src, 1, A} }
+		comA := func(src int64) msel { return msel{MsgCommit, src, 1, A} }
+		pfx := []pstep{
+			{m: 1, msgs: []msel{ppA}}, {m: 2, msgs: []msel{ppA}}, {m: 3, msgs: []msel{ppA}}, {m: 4, msgs: []msel{ppB}}, {m: 5, msgs: []msel{ppB}},
+			{m: 1, msgs: []msel{preA(0), preA(1), preA(2), preA(3)}}, {m: 2, msgs: []msel{preA(0), preA(1), preA(2), preA(3)}}, {m: 3, msgs: []msel{preA(0), preA(1), preA(2), preA(3)}},
+			{m: 2, msgs: []msel{comA(0), comA(1), comA(2), comA(3)}},
+			{m: 1, timeout: true}, {m: 3, timeout: true}, {m: 4, timeout: true}, {m: 5, timeout: true},
+		}
+		before := len(scs)
+		add("n6-staged-equivocation-A-decided-by-one-B-one-short-byz-leader1-R2-forge", 6, []int64{0}, map[int64]int64{1: 1, 2: 1, 3: 1, 4: 2, 5: 2}, v12, 2,
+			opt{parts: [][][]int{{{0}, {1}, {2}, {3, 4}}}})
+		for _, sc := range scs[before:] {
+			sc.prefix = pfx
+		}
+	}
 	add("n4-one-without-input-R2", 4, nil, map[int64]int64{1: 2, 2: 3, 3: 4}, nil, 2, opt{})
 	add("n4-byz-leader1-R1-noise1", 4, []int64{0}, in4b(), v12, 1, opt{noise: 1, parts: [][][]int{{{0, 1, 2}}, {{0}, {1, 2}}}})
 	add("n3-distinct-R2-noise1", 3, nil, in3(), nil, 2, opt{noise: 1, parts: [][][]int{{{0, 1, 2}}, {{0}, {1, 2}}}})
